@@ -145,15 +145,28 @@ def edges_to_scripts(edges, maxrt, txseq0, prefix):
     return scripts
 
 
-def execute_and_judge(binary, scripts, k0, name, nproc=None):
+def execute_and_judge(binary, scripts, k0, name, nproc=None, lockstep=True):
     """run scripts on the real server, validate the recorded traces with TLC; returns (violations, stats)"""
-    nproc = nproc or min(vlib.NCPU, 16)
+    nproc = nproc or min(vlib.NCPU, 12)
     nproc = max(1, min(nproc, len(scripts)))
-    chunks = [scripts[i::nproc] for i in range(nproc)]
+    # chunks of at most ~1500 scripts (bounded trace files, bounded TLC memory), processed by a pool of nproc workers
+    nchunks = max(nproc, -(-len(scripts) // 1500))
+    chunks = [c for c in (scripts[i::nchunks] for i in range(nchunks)) if c]
     byid = {s["id"]: s for s in scripts}
+    import queue as _q
+    kq = _q.Queue()
+    for j in range(nproc):
+        kq.put(k0 + j)
 
     def work(i):
-        fout, info = vlib.run_l1(binary, chunks[i], k0 + i, "%s-%d" % (name, i))
+        kk = kq.get()
+        try:
+            return work1(i, kk)
+        finally:
+            kq.put(kk)
+
+    def work1(i, kk):
+        fout, info = vlib.run_l1(binary, chunks[i], kk, "%s-%d" % (name, i))
         lines = vlib.read_ndjson(fout)
         crashed = None
         if info["rc"] != 0:
@@ -162,23 +175,43 @@ def execute_and_judge(binary, scripts, k0, name, nproc=None):
             # the child died (panic in a goroutine nobody recovers, or a hang): the last script it worked on
             crashed = {"rc": info["rc"], "tail": info["tail"][-3000:], "tr": lines[-1]["tr"] if lines else chunks[i][0]["id"]}
         doc = vlib.tlc_trace(fout, "%s-%d" % (name, i)) if lines else {"lines": 0, "viol": []}
-        idx = {(ln["tr"], ln["i"]): ln for ln in lines}
+        # lock-step comparison with the ideal model (informational: SPEC-DIVERGENCE never decides a property)
+        ideal = {"div": [], "compared": 0}
+        if lines and lockstep:
+            try:
+                ideal = vlib.tlc_trace(fout, "%s-%d-ideal" % (name, i), spec="Trace_Ideal", modules=("Mon.tla", "Upf.tla"))
+            except Infra as ex:
+                ideal = {"div": [], "compared": 0, "error": str(ex)[-300:]}
+        idx = {(ln["tr"], ln["i"]): ln for ln in lines} if doc["viol"] else {}
         viol = []
         for v in doc["viol"]:
             viol.append({"tr": v["tr"], "i": v["i"], "tags": sorted(v["tags"]), "line": idx.get((v["tr"], v["i"]))})
-        return viol, len(lines), len({ln["tr"] for ln in lines}), crashed
+        try:
+            os.remove(fout)
+            os.remove(info["in"])
+        except OSError:
+            pass
+        return viol, len(lines), len({ln["tr"] for ln in lines}), crashed, ideal
 
     viols, nlines, ntraces, crashes = [], 0, 0, []
+    divs, compared, ierr = [], 0, None
     with cf.ThreadPoolExecutor(nproc) as ex:
-        for v, nl, nt, cr in ex.map(work, range(nproc)):
+        for v, nl, nt, cr, ideal in ex.map(work, range(len(chunks))):
             viols += v
             nlines += nl
             ntraces += nt
+            divs += ideal.get("div", [])
+            compared += ideal.get("compared", 0)
+            ierr = ierr or ideal.get("error")
             if cr:
                 crashes.append(cr)
     for v in viols:
         v["script"] = byid.get(v["tr"])
-    return viols, {"events": nlines, "traces": ntraces, "crashes": crashes}
+    for dv in divs[:5]:
+        log("SPEC-DIVERGENCE (informational) trace %s line %d event %s: %s differ between the ideal model and the code" % (dv["tr"], dv["i"], dv["t"], dv["what"]))
+    if ierr:
+        log("note: lock-step validation did not complete: %s" % ierr)
+    return viols, {"events": nlines, "traces": ntraces, "crashes": crashes, "lockstep_compared": compared, "lockstep_divergences": len(divs)}
 
 
 def brief(script, upto=None):
@@ -257,7 +290,9 @@ def check_l1(pid, replay=None):
     # ---- 1. the ideal model satisfies every monitor (exhaustive, bounded); every edge becomes a test
     params = {"maxrt": 1 + seed % 2, "txseq0": [0, 16777215, 16777214][seed % 3]}
     turns = tt if thorough else tq
-    mc = mc_generate(family, turns, params, 1, 0, pid + "-q")
+    # the deepest Lifecycle graph has about 10^6 edges: sample them inside TLC (path hash modulo), not in Python
+    smod = 7 if (thorough and family == "Lifecycle") else 1
+    mc = mc_generate(family, turns, params, smod, seed % smod, pid + "-q", max_edges=400000)
     log("MC %s turns=%d: %d distinct states, %d transitions, %d edges printed in %.0fs" % (
         family, turns, mc["distinct"], mc["generated"], mc["edges_printed"], mc["wall"]))
     edges = mc["edges"]
@@ -297,7 +332,10 @@ def check_l1(pid, replay=None):
         "mc_family": family, "mc_turns": turns, "mc_constants": mc["cfg"],
         "edges_total": mc["edges_printed"], "edges_replayed": len(scripts),
         "random_histories": len(rnd), "events_executed_on_impl": s1["events"] + s2["events"],
-        "exhaustive": len(scripts) == mc["edges_printed"],
+        "lockstep_steps_compared_with_ideal_model": s1["lockstep_compared"] + s2["lockstep_compared"],
+        "lockstep_divergences": s1["lockstep_divergences"] + s2["lockstep_divergences"],
+        "exhaustive": len(scripts) == mc["edges_printed"] and smod == 1,
+        "edge_sample": "1/%d of the edges, chosen inside TLC by a hash of the path" % smod,
         "checker_cmd": "tlc MC_Upf.tla (INVARIANT NoVerdict, ACTION_CONSTRAINT Emit); tlc Trace_Upf.tla per recorded chunk",
         "verdicts_of_other_properties": others,
     }
